@@ -6,6 +6,7 @@ still the text the model was written against.  `BytomModel.Gen.OrphanShape` is r
 the model (and the theorems of Props/C12) must be re-inspected.
 -/
 import BytomModel.Gen.OrphanShape
+import BytomModel.Props.C12Pool
 
 namespace BytomModel.Ties.C12
 open BytomModel.Gen.OrphanShape
@@ -45,5 +46,22 @@ theorem tie_chainProcessBlock : chainProcessBlock =
 /-- `exists_` in `State.processBlock`: stored header or orphan -/
 theorem tie_chainBlockExist : chainBlockExist =
   "func (c *Chain) BlockExist(hash *bc.Hash) bool { if _, err := c.store.GetBlockHeader(hash); err == nil { return true } return c.orphanManage.BlockExist(hash) }" := rfl
+
+/-- `Pool.deleteLRU` / `minExp`: the entry with the earliest expiration (strict `Before`, so the first seen on a tie), removed through `delete` -/
+theorem tie_omDeleteLRU : omDeleteLRU =
+  "func (o *OrphanManage) deleteLRU() { var deleteBlock *OrphanBlock for _, orphan := range o.orphan { if deleteBlock == nil || orphan.expiration.Before(deleteBlock.expiration) { deleteBlock = orphan } } if deleteBlock != nil { blockHash := deleteBlock.Block.Hash() o.delete(&blockHash) } }" := rfl
+
+/-- `Pool.expire`: every entry whose expiration is strictly before `now` goes through `delete` -/
+theorem tie_omOrphanExpire : omOrphanExpire =
+  "func (o *OrphanManage) orphanExpire(now time.Time) { o.mtx.Lock() defer o.mtx.Unlock() for hash, orphan := range o.orphan { if orphan.expiration.Before(now) { o.delete(&hash) } } }" := rfl
+
+/-- the capacity the code is built with is positive (hypothesis of `size_le_limit`) -/
+theorem tie_limit_pos : 0 < numOrphanBlockLimit := by decide
+
+/-- **the capacity bound at the code's own limit**: whatever Add / Delete / expiry sequence the
+    node goes through, the orphan pool never holds more than `numOrphanBlockLimit` blocks -/
+theorem real_limit_bound (ops : List BytomModel.Model.OrphanPool.Op) :
+    ((BytomModel.Model.OrphanPool.Pool.init numOrphanBlockLimit).run ops).orphans.length ≤ numOrphanBlockLimit :=
+  (BytomModel.Props.C12Pool.size_le_limit numOrphanBlockLimit tie_limit_pos ops).1
 
 end BytomModel.Ties.C12
